@@ -316,8 +316,8 @@ def check(tier, seed):
     orig_oracle = common.run_oracle
     common.run_oracle = lambda cases, nproc=None: orig_oracle(cases, nproc or min(common.NCPU, max(1, len(cases) // 8)))
     orig_impl = common.run_impl
-    common.run_impl = lambda binpath, cases, timeout_s=5.0, nproc=None, env=None: orig_impl(
-        binpath, cases, timeout_s, nproc or min(common.NCPU, max(1, len(cases) // 8)), env)
+    common.run_impl = lambda binpath, cases, timeout_s=5.0, nproc=None, env=None, **kw: orig_impl(
+        binpath, cases, timeout_s, nproc or min(common.NCPU, max(1, len(cases) // 8)), env, **kw)
     rc = common.generic_check(sys.modules[__name__], tier, seed)
     sv = source_version(None)
     print("SOURCE-VERSION property=C17 " + " ".join("%s=%s" % kv for kv in sorted(sv.items())))
